@@ -42,6 +42,15 @@ template<class S,class Tg> void c18_far(hx::Rec<S>& R){ COMMON
   G Y=X.rplus(d);
   R.eq("far", B<S>(X.isApprox(Y,e)), S(0.0)); R.eq("far.sym", B<S>(Y.isApprox(X,e)), S(0.0));
 }
+// the same 'far' claim for elements with large coordinates (1e3 .. 1e9): a relative test on the coefficient vector would accept them
+template<class S,class Tg> void c18_far_large(hx::Rec<S>& R){ COMMON
+  G X=Tg::make(R,"a",0); T d=Tg::maket(R,"d",3); S e=R.var("eps",1e-3); R.assume(S(0.0),0,e); R.assume(e,1,S(0.01));
+  R.assume(S(1000.0),1,X.coeffs()(0)); R.assume(X.coeffs()(0),1,S(1e9));
+  for(int i=0;i<Tg::DoF;i++){ R.assume(d.coeffs()(i),1,S(0.5)); R.assume(S(-0.5),1,d.coeffs()(i)); }
+  R.assume(e*S(2.0),1,d.coeffs()(FARIDX%Tg::DoF));
+  G Y=X.rplus(d);
+  R.eq("far", B<S>(X.isApprox(Y,e)), S(0.0));
+}
 template<class S,class Tg> void c18_tangent(hx::Rec<S>& R){ COMMON
   using std::abs;
   T a=Tg::maket(R,"a",0), b=Tg::maket(R,"b",1); S e=R.var("eps",1e-3); R.assume(S(0.0),0,e);
@@ -64,6 +73,7 @@ ENTRY_T(c18_negq, TAG)
 ENTRY_T(c18_sym, TAG)
 ENTRY_T(c18_near, TAG)
 ENTRY_T(c18_far, TAG)
+ENTRY_T(c18_far_large, TAG)
 ENTRY_T(c18_tangent, TAG)
 ENTRY_T(c18_tangent_rel, TAG)
 HX_MAIN
